@@ -350,7 +350,31 @@ pub fn profile_sets() -> Vec<TaskSet> {
         side: Some(Con::BinEq(v(2), View::new(0, -2, 4))),
         more: vec![Con::BinEq(v(4), View::new(0, -2, 9))],
     });
+    out.extend(decision_profile_sets());
     out.extend(long_profile_sets());
+    out
+}
+
+/// L7 of `profile_sets`.
+pub fn decision_profile_sets() -> Vec<TaskSet> {
+    let v = View::id;
+    let mut out = vec![];
+    // L7: a decision creates the first of two profiles separated by a short gap; the only
+    // solutions have the long task directly in front of the second profile (an explanation of the
+    // push through both profiles that forgets the first one makes the learned nogood remove them)
+    for (a0, dur, b) in [(2, 3, 6), (1, 3, 5), (2, 4, 7), (2, 3, 5)] {
+        // variable order a, y, s, b: input-order search decides a first
+        out.push(TaskSet {
+            vars: vec![VarDecl::from_values(&[a0, 20]), VarDecl::interval(0, 1), VarDecl::interval(0, b), VarDecl::from_values(&[b])],
+            starts: vec![v(2), v(0), v(3)],
+            durations: vec![dur, dur, dur],
+            usages: vec![1, 1, 1],
+            cap: 1,
+            // s + dur*y >= b - dur  and  s - dur*y >= b - 2*dur: s >= b - dur whatever y is
+            side: Some(Con::LinLe(vec![View::new(2, -1, 0), View::new(1, -dur, 0)], -(b - dur))),
+            more: vec![Con::LinLe(vec![View::new(2, -1, 0), View::new(1, dur, 0)], -(b - 2 * dur))],
+        });
+    }
     out
 }
 
@@ -377,7 +401,42 @@ pub fn long_profile_sets() -> Vec<TaskSet> {
             more: vec![],
         });
     }
-    out
+    // L6: two profiles separated by a gap that is shorter than a long task, which is pushed
+    // through both of them in one go (sequences of profiles; the explanation has to cover the
+    // first profile, the gap and the second profile)
+    let mut gaps = vec![];
+    // (adur, b, tdur, lb, more): the first task occupies 2..2+adur-1, the second b..b+1, the long
+    // task has duration tdur and lower bound lb; in the first shape the pointwise stepping
+    // (lb+tdur-1, then +tdur) lands inside the gap between the profiles
+    let mut shapes: Vec<(i32, i32, i32, i32, bool)> = vec![(3, 6, 3, 0, false), (2, 5, 3, 0, true), (3, 7, 4, 0, true)];
+    for adur in [2, 3] {
+        for b in [5, 6, 7] {
+            for tdur in [3, 4, 5] {
+                for lb in [0, 1] {
+                    if (adur, b, tdur, lb) != (3, 6, 3, 0) && b > 2 + adur {
+                        shapes.push((adur, b, tdur, lb, false));
+                    }
+                }
+            }
+        }
+    }
+    for (adur, b, tdur, lb, more_tasks) in shapes {
+        let mut vars = vec![VarDecl::from_values(&[2]), VarDecl::from_values(&[b]), VarDecl::interval(lb, 9)];
+        let mut durations = vec![adur, 2, tdur];
+        let mut usages = vec![1, 1, 1];
+        if more_tasks {
+            // a second flexible task that fits into the gap
+            vars.push(VarDecl::interval(0, 8));
+            durations.push(1);
+            usages.push(1);
+        }
+        gaps.push(TaskSet { starts: (0..vars.len()).map(v).collect(), vars, durations, usages, cap: 1, side: None, more: vec![] });
+    }
+    // (the first set of each kind comes first: the quick tier of C17 takes two)
+    let mut ordered = vec![out.remove(0), gaps.remove(0)];
+    ordered.extend(out);
+    ordered.extend(gaps);
+    ordered
 }
 
 impl Property for C08 {
